@@ -28,10 +28,15 @@ FINDINGS = {
                             "resolves to different settings from one lookup to the next (e.g. exact persistent + realm-wildcard in-memory)",
     "C21-reregistration-ignored": "RegisterPattern's `not changed` early return ignores the swamp type: `reg a/x/p M 4` then `reg a/x/p P 4 0 0` "
                                   "leaves the pattern in-memory; lookups keep returning the older registration",
+    "C21-acknowledged-registration-lost": "RegisterPattern's `not changed` early return looks at the runtime map only: after a registration whose save "
+                                          "failed, registering the same pattern again is acknowledged but writes nothing — after a restart it is gone",
     "C21-settings-save-not-atomic": "settings.json is rewritten in place: when a save fails part-way (crash, full disk) the file no longer parses and "
                                     "settings.New silently starts with NO patterns — every previously registered pattern is lost after the restart",
     "C21-restart-loses-field": "a pattern field is not carried through settings.json: after a restart the same name resolves to different settings",
 }
+
+
+_ATOMIC = True
 
 
 def _matches(n, p):
@@ -47,12 +52,40 @@ def oracle(rep):
     """Spec oracle on the implementation's replies only: one result per lookup batch, the winner is a
     most specific registered match (default iff none), the same result after a restart."""
     keys, last, regd, torn, maybe_all = set(), {}, {}, None, set()
+    files = {}
     for op, line in zip(rep["ops"], rep["impl"]):
         f = op.split(" ")
+        if line.startswith("timeout"):
+            continue   # the rig did not answer in time (load): common.py re-runs such a case alone with a larger budget
         if line == "panic":
             return (None, "`%s` panicked" % op)
         if f[0] == "case":
             keys, last, regd, torn, maybe_all = set(), {}, {}, None, set()
+            files = {}
+        elif f[0] == "live":
+            # the swamp is created with the settings that resolve NOW: in-memory = starts empty, nothing reaches the disk;
+            # persistent = loads what is on disk and persists the new treasure
+            name = tuple(f[1:4])
+            if not line.startswith("live "):
+                return (None, "`%s` answered %s" % (op, line))
+            if torn is not None or any(_matches(name, k) for k in maybe_all):
+                files.pop(name, None)
+                continue
+            matching = [k for k in keys if _matches(name, k)]
+            best = [k for k in matching if not any(_more_specific(q, k) for q in matching)]
+            if len(best) > 1:
+                continue
+            in_mem = bool(best) and regd[best[0]].startswith("M")
+            prev = files.get(name)
+            if prev is None and name in files:
+                continue
+            prev = prev or 0
+            want = "live count=1 disk=%s" % str(prev > 0).lower() if in_mem else "live count=%d disk=true" % (prev + 1)
+            if not in_mem:
+                files[name] = prev + 1
+            if line != want:
+                return (None, "a swamp of %s opened while the settings resolve to %s (%s) behaved as `%s`, expected `%s`"
+                        % ("/".join(name), "/".join(best[0]) if best else "the default", "in-memory" if in_mem else "persistent", line, want))
         elif f[0] == "regtorn":
             # the runtime has the pattern; whether it survives a restart is open — everything saved BEFORE must survive
             keys.add(tuple(f[1:4]))
@@ -66,6 +99,8 @@ def oracle(rep):
                 maybe_all.add(torn)
                 last, torn = {}, None
         elif f[0] == "reg":
+            if torn == tuple(f[1:4]):
+                torn = None      # acknowledged again: it must survive a restart now
             keys.add(tuple(f[1:4]))
             # what the registration asks for (in-memory patterns carry no interval / size)
             regd[tuple(f[1:4])] = "M|%s|0|0" % f[5] if f[4] == "M" else "P|%s|%s|%s" % (f[5], f[6], f[7])
@@ -87,18 +122,18 @@ def oracle(rep):
                 pat = tuple(r.split("|")[0].split("/"))
                 if not matching:
                     if pat != name or r.split("|", 1)[1] != "P|5|1|65536":
-                        return ("C21-settings-save-not-atomic" if maybe_all else None, "no registered pattern matches %s but the result is %s" % ("/".join(name), r))
+                        return (("C21-acknowledged-registration-lost" if _ATOMIC else "C21-settings-save-not-atomic") if maybe_all else None, "no registered pattern matches %s but the result is %s" % ("/".join(name), r))
                 elif pat not in matching or any(_more_specific(k, pat) for k in matching):
-                    fidx = "C21-settings-save-not-atomic" if maybe_all else "C21-map-order-lookup"
+                    fidx = ("C21-acknowledged-registration-lost" if _ATOMIC else "C21-settings-save-not-atomic") if maybe_all else "C21-map-order-lookup"
                     return (fidx, "%s resolved to %s although a more specific registered pattern matches (registered: %s)"
                                 % ("/".join(name), r, " ".join(sorted("/".join(k) for k in matching))))
             for r in res:
                 pat = tuple(r.split("|")[0].split("/"))
                 if pat in regd and r.split("|", 1)[1] != regd[pat]:
-                    return ("C21-settings-save-not-atomic" if maybe_all else "C21-reregistration-ignored", "%s resolved to %s but pattern %s was last registered as %s"
+                    return (("C21-acknowledged-registration-lost" if _ATOMIC else "C21-settings-save-not-atomic") if maybe_all else "C21-reregistration-ignored", "%s resolved to %s but pattern %s was last registered as %s"
                             % ("/".join(name), r, "/".join(pat), regd[pat]))
             if name in last and last[name] != res:
-                return ("C21-restart-loses-field", "%s resolved to %s before and %s after a restart" % ("/".join(name), last[name], res))
+                return ("C21-acknowledged-registration-lost" if not maybe_all else "C21-restart-loses-field", "%s resolved to %s before and %s after a restart" % ("/".join(name), last[name], res))
             last[name] = res
     return None
 
@@ -109,7 +144,9 @@ def spec_violated(rep):
 
 
 def run(ctx):
+    global _ATOMIC
     facts, _, _ = U.extract_facts(ctx)
+    _ATOMIC = facts.get("saveAtomic") == "yes"
     K.lean_verdict(ctx)
     corrs = U.run_corr(ctx, "C21", facts)
     K.decide_standard(ctx, corrs, FINDINGS)
@@ -123,9 +160,12 @@ def run(ctx):
     samples = [{"ops": [c.ops[i] for i in cs], "impl": [c.impl[i] for i in cs if i < len(c.impl)]} for cs in c.cases[:2]]
     return K.finish(
         ctx, "proof",
-        rule=("cases = 3 corpus cases + random histories of reg/dereg/get/restart over patterns {a,b,*}x{x,y,*}x{p,q,*} (at most 8 "
+        rule=("cases = 7 corpus cases + random histories of reg/dereg/get/live/restart over patterns {a,b,*}x{x,y,*}x{p,q,*} or, in a third of the "
+              "cases, parts that differ in letter case or are prefixes of one another ({ab,aB,a,*}x{xy,xY,x,*}x{pq,Pq,pqr,*}) (at most 8 "
               "distinct keys per case, re-registrations with changed and unchanged numbers), each closed by the same three lookups "
-              "before and after a restart; every get is 300 real lookups and replies the set of distinct results; a case is "
+              "before and after a restart; every get is 300 real lookups and replies the set of distinct results; live = hydra + gateway on "
+              "the same settings object: a treasure is written into the swamp, counted, the swamp closed and looked up on disk (the swamp "
+              "must have been created with the settings that resolve at that moment); a case is "
               "non-trivial when it has >= 3 ops; distinct = distinct op texts; model reply = every result some map order can give"),
         samples=samples, evaluations=len(c.ops), distinct_nontrivial=K.distinct_cases(c),
         extra_cov={"correspondence": {"domain": "C21", "cases": len(c.cases), "op_lines": len(c.ops), "mismatching_lines": len(c.mismatch),
